@@ -184,6 +184,12 @@ type tableSpec struct {
 	// an alternative argument type from which the key can be computed (e.g. *pbresource.ID for the resources table)
 	altPkg, altType string
 	altFields       []string
+	// rows are values of an interface type (several concrete row types): the dynamic type tag is kept in a
+	// parallel ghost table and the key is computed through the interface's (pure) accessor methods
+	ifaceRow     bool
+	ifacePkg     string
+	ifaceType    string
+	ifaceKeyMeth []string
 	indexes  map[string]indexSpec
 }
 
@@ -214,12 +220,23 @@ func init() {
 		keyFields: []string{"Id.Type.Group", "Id.Type.Kind", "Id.Tenancy.Partition", "Id.Tenancy.Namespace", "Id.Name"},
 		altPkg:    consulMod + "/proto-public/pbresource", altType: "ID",
 		altFields: []string{"Type.Group", "Type.Kind", "Tenancy.Partition", "Tenancy.Namespace", "Name"}})
+	addTable(&tableSpec{name: "checks", rowPkg: structsPkg, rowType: "HealthCheck", keyFields: []string{"PeerName", "Node", "CheckID"}, keyLower: []bool{true, true, true},
+		altPkg: statePkg, altType: "NodeCheckQuery", altFields: []string{"PeerName", "Node", "CheckID"}})
+	addTable(&tableSpec{name: "nodes", rowPkg: structsPkg, rowType: "Node", keyFields: []string{"PeerName", "Node"}, keyLower: []bool{true, true},
+		altPkg: statePkg, altType: "Query", altFields: []string{"PeerName", "Value"}})
+	addTable(&tableSpec{name: "services", rowPkg: structsPkg, rowType: "ServiceNode", keyFields: []string{"PeerName", "Node", "ServiceID"}, keyLower: []bool{true, true, true},
+		altPkg: statePkg, altType: "NodeServiceQuery", altFields: []string{"PeerName", "Node", "Service"}})
+	addTable(&tableSpec{name: "config-entries", ifaceRow: true, ifacePkg: structsPkg, ifaceType: "ConfigEntry", ifaceKeyMeth: []string{"GetKind", "GetName"},
+		keyLower: []bool{true, true}, altPkg: consulMod + "/agent/configentry", altType: "KindName", altFields: []string{"Kind", "Name"}})
 	addTable(&tableSpec{name: "index", rowPkg: statePkg, rowType: "IndexEntry", keyField: "Key", lower: true})
 	addTable(&tableSpec{name: "sessions", rowPkg: structsPkg, rowType: "Session", keyField: "ID", lower: true,
 		indexes: map[string]indexSpec{"node": {kind: "fieldeq", field: "Node", lower: true}, "id_prefix": {kind: "prefix"}}})
 }
 
 func (e *Engine) tableRowType(t *tableSpec) types.Type {
+	if t.ifaceRow {
+		return e.lookupType(t.ifacePkg, t.ifaceType)
+	}
 	rt := e.lookupType(t.rowPkg, t.rowType)
 	if rt == nil {
 		return nil
@@ -276,10 +293,34 @@ func (f *Frame) tableAccessor(st *State, e *ast.CallExpr, name string) *Term {
 	}
 	r := Select(f.tableArr(st, t), k)
 	f.rowWellFormed(st, t, k, r)
+	if t.ifaceRow {
+		return f.rowIfaceAt(st, t, k, r)
+	}
 	return r
 }
 
 // rowKey returns the (normalised) primary key of the row object ref.
+// rowKeyIface: key of an interface-typed row through its pure accessor methods.
+func (f *Frame) rowKeyIface(st *State, t *tableSpec, iv *Term) *Term {
+	c := f.c
+	it := f.eng.lookupType(t.ifacePkg, t.ifaceType)
+	var parts []*Term
+	for i, mn := range t.ifaceKeyMeth {
+		obj, _, _ := types.LookupFieldOrMethod(it, false, nil, mn)
+		fn, ok := obj.(*types.Func)
+		if !ok {
+			panic(unsupported{"table " + t.name + ": interface has no method " + mn})
+		}
+		rs := f.uninterpCall(st, "ifc!structs."+t.ifaceType+"."+mn, iv, nil, fn.Type().(*types.Signature))
+		v := rs[0]
+		if i < len(t.keyLower) && t.keyLower[i] {
+			v = c.strLower(v)
+		}
+		parts = append(parts, v)
+	}
+	return c.tupleKey(parts)
+}
+
 func (f *Frame) rowKey(st *State, t *tableSpec, ref *Term) *Term {
 	c := f.c
 	if len(t.keyFields) == 0 {
@@ -378,7 +419,7 @@ func (f *Frame) tableWF(st *State, t *tableSpec) {
 	k := c.bvar("k", SStr)
 	r := Select(tb, k)
 	var body *Term
-	if t.single {
+	if t.single || t.ifaceRow {
 		body = Forall([]*Term{k}, Implies(Ne(r, IntLit(0)), Select(al, r)), r)
 	} else {
 		w := st.clone()
@@ -473,8 +514,13 @@ func (f *Frame) argKey(st *State, t *tableSpec, v *Term, at types.Type, n ast.No
 		return f.rowKey(st, t, v)
 	}
 	if t.altType != "" {
-		if alt := f.eng.lookupType(t.altPkg, t.altType); alt != nil && types.Identical(types.Unalias(at), types.NewPointer(alt)) {
-			return f.altKey(st, t, v)
+		if alt := f.eng.lookupType(t.altPkg, t.altType); alt != nil {
+			if types.Identical(types.Unalias(at), types.NewPointer(alt)) {
+				return f.altKey(st, t, v, true)
+			}
+			if types.Identical(types.Unalias(at), alt) {
+				return f.altKey(st, t, v, false)
+			}
 		}
 	}
 	k := f.argString(st, v, at, n)
@@ -485,11 +531,23 @@ func (f *Frame) argKey(st *State, t *tableSpec, v *Term, at types.Type, n ast.No
 }
 
 // altKey: the key computed from an object of the table's alternative argument type.
-func (f *Frame) altKey(st *State, t *tableSpec, ref *Term) *Term {
+func (f *Frame) altKey(st *State, t *tableSpec, ref *Term, isPtr bool) *Term {
 	alt := &tableSpec{name: t.name, rowPkg: t.altPkg, rowType: t.altType}
 	var parts []*Term
 	for i, kf := range t.altFields {
-		v := f.rowField(st, alt, ref, kf)
+		var v *Term
+		if isPtr {
+			v = f.rowField(st, alt, ref, kf)
+		} else {
+			// a struct value: plain (non-dotted) field
+			at := f.eng.lookupType(t.altPkg, t.altType)
+			si := f.c.structInfo(at)
+			idx, ok := si.byName[kf]
+			if !ok {
+				panic(unsupported{"table " + t.name + ": alt key field " + kf})
+			}
+			v = f.c.fieldGet(ref, si, idx)
+		}
 		if i < len(t.keyLower) && t.keyLower[i] {
 			v = f.c.strLower(v)
 		}
@@ -543,6 +601,14 @@ func (f *Frame) argString(st *State, v *Term, at types.Type, n ast.Node) *Term {
 	return k
 }
 
+func (f *Frame) rowIfaceAt(st *State, t *tableSpec, k, r *Term) *Term {
+	if !t.ifaceRow {
+		return f.rowIface(t, r)
+	}
+	tags := f.c.heapGet(st, tableHeap(t.name)+"!tag", ArrSort(SStr, SInt))
+	return Ite(Eq(r, IntLit(0)), IfaceNil, App("mkI", SIfc, Select(tags, k), r))
+}
+
 func (f *Frame) rowIface(t *tableSpec, r *Term) *Term {
 	rt := f.eng.tableRowType(t)
 	return Ite(Eq(r, IntLit(0)), IfaceNil, App("mkI", SIfc, f.c.tagOf(rt), r))
@@ -566,6 +632,7 @@ func (f *Frame) memdbLookup(st *State, e *ast.CallExpr, args []*Term) (*Term, *T
 			f.fail(e, "First on id index without argument")
 		}
 		k := f.argKey(st, t, v, at, e)
+		f.lastKey = k
 		r := Select(f.tableArr(st, t), k)
 		f.rowWellFormed(st, t, k, r)
 		// id-index reads fail exactly when the indexer rejects the key
@@ -609,16 +676,32 @@ func (f *Frame) memdbLookup(st *State, e *ast.CallExpr, args []*Term) (*Term, *T
 }
 
 func modelFirst(f *Frame, st *State, e *ast.CallExpr, recv *Term, args []*Term, sig *types.Signature) []*Term {
+	f.lastKey = nil
 	r, failed := f.memdbLookup(st, e, args)
 	t := f.tableOf(e)
-	return []*Term{Ite(failed, IfaceNil, f.rowIface(t, r)), Ite(failed, f.someError(), IfaceNil)}
+	ri := f.rowIface(t, r)
+	if t.ifaceRow {
+		if f.lastKey == nil {
+			f.fail(e, "lookup in interface-row table without id key")
+		}
+		ri = f.rowIfaceAt(st, t, f.lastKey, r)
+	}
+	return []*Term{Ite(failed, IfaceNil, ri), Ite(failed, f.someError(), IfaceNil)}
 }
 
 func modelFirstWatch(f *Frame, st *State, e *ast.CallExpr, recv *Term, args []*Term, sig *types.Signature) []*Term {
+	f.lastKey = nil
 	r, failed := f.memdbLookup(st, e, args)
 	t := f.tableOf(e)
 	ch := f.c.fresh("watchCh", SInt)
-	return []*Term{ch, Ite(failed, IfaceNil, f.rowIface(t, r)), Ite(failed, f.someError(), IfaceNil)}
+	ri := f.rowIface(t, r)
+	if t.ifaceRow {
+		if f.lastKey == nil {
+			f.fail(e, "lookup in interface-row table without id key")
+		}
+		ri = f.rowIfaceAt(st, t, f.lastKey, r)
+	}
+	return []*Term{ch, Ite(failed, IfaceNil, ri), Ite(failed, f.someError(), IfaceNil)}
 }
 
 func modelInsert(f *Frame, st *State, e *ast.CallExpr, recv *Term, args []*Term, sig *types.Signature) []*Term {
@@ -626,7 +709,7 @@ func modelInsert(f *Frame, st *State, e *ast.CallExpr, recv *Term, args []*Term,
 	t := f.tableOf(e)
 	rt := f.eng.tableRowType(t)
 	at := f.typeOf(e.Args[1])
-	if !types.Identical(types.Unalias(at), rt) {
+	if !t.ifaceRow && !types.Identical(types.Unalias(at), rt) {
 		f.fail(e, "Insert into %s of a %s (model expects %s)", t.name, at, rt)
 	}
 	obj := ifaceRef(args[1])
@@ -634,6 +717,10 @@ func modelInsert(f *Frame, st *State, e *ast.CallExpr, recv *Term, args []*Term,
 	var k *Term
 	if t.single {
 		k = Sym("strEmpty", SStr)
+	} else if t.ifaceRow {
+		k = f.rowKeyIface(st, t, args[1])
+		tags := c.heapGet(st, tableHeap(t.name)+"!tag", ArrSort(SStr, SInt))
+		c.heapSet(st, tableHeap(t.name)+"!tag", Ite(failed, tags, Store(tags, k, ifaceTag(args[1]))))
 	} else {
 		k = f.rowKey(st, t, obj)
 	}
